@@ -55,7 +55,7 @@ meta["qualifies"] = ok
 # run checks against /repo with the patch applied (or, with --in-worktree, against the worktree itself, which must be
 # at /repo's HEAD plus the change - used while background runs need an unmodified /repo)
 results = {}
-cenv = dict(os.environ)
+cenv = dict(os.environ, VERIF_SCRATCH="1")
 if in_worktree:
     head_repo = sh("git -C /repo rev-parse HEAD").stdout.strip()
     head_wt = sh("git rev-parse HEAD", cwd=wt).stdout.strip()
